@@ -188,6 +188,8 @@ def gen_sols(rng, n):
         c = {"op": "sol", "sols": sols, "args": valid_sid_args(rng)}
         if rng.random() < 0.6:      # planning-problem ids in the order the solutions are handed over, not ascending
             c["pids"] = rng.sample(range(1, 40), k)
+        if rng.random() < 0.3:      # the vehicle type is corrected after construction (a plain public attribute)
+            c["late_type"] = True
         out.append(c)
     return out
 
@@ -304,6 +306,14 @@ def build_solution(c):
     pids = c.get("pids") or list(range(1, len(c["sols"]) + 1))
     pps = [PlanningProblemSolution(pids[i], VehicleModel[m], VehicleType(t), CostFunction[cf], traj_for(VehicleModel[m]))
            for i, (m, t, cf) in enumerate(c["sols"])]
+    if c.get("late_type"):
+        others = list(VehicleType)
+        pps = []
+        for i, (m, t, cf) in enumerate(c["sols"]):
+            wrong = next(v for v in others if v != VehicleType(t))
+            p = PlanningProblemSolution(pids[i], VehicleModel[m], wrong, CostFunction[cf], traj_for(VehicleModel[m]))
+            p.vehicle_type = VehicleType(t)
+            pps.append(p)
     return r[1], Solution(r[1], pps)
 
 
